@@ -155,6 +155,23 @@ fn run(args: &[String]) -> String {
             let mut s = all.clone(); s.sort(); s.dedup();
             if s.len() != n { format!("dup:{}of{}", n - s.len(), n) } else { format!("ok:distinct{}", n) }
         }
+        "sm9_fresh_threads" => {
+            // counterexample SEARCH only: master secrets drawn in fresh threads (and in this one) must all differ
+            let mut hs = vec![];
+            for _ in 0..3 {
+                hs.push(std::thread::spawn(|| {
+                    let mut v = vec![];
+                    for _ in 0..2 { v.push(format!("{:?}", gm_sm9::key::generate_enc_master_key().ke)); }
+                    v
+                }));
+            }
+            let mut all: Vec<String> = vec![];
+            for _ in 0..2 { all.push(format!("{:?}", gm_sm9::key::generate_enc_master_key().ke)); }
+            for hd in hs { all.extend(hd.join().unwrap_or_default()); }
+            let n = all.len();
+            let mut s = all.clone(); s.sort(); s.dedup();
+            if s.len() != n { format!("dup:{}of{}", n - s.len(), n) } else { format!("ok:distinct{}", n) }
+        }
         "sm2_key_forms" => {
             // d (32 bytes hex) -> every textual / binary form of the key pair decoded again: "ok:<fields>" where each field is 1 (round trip
             // returned the same key) or 0
